@@ -301,9 +301,9 @@ fn tie_rich_case(rng: &mut Rng, idx: u64) -> GCase {
     let kinds = kinds8();
     let fams: &[&'static str] = &["path", "cycle", "complete", "bipartite", "grid", "ladder", "star", "barbell"];
     let specs = *rng.pick(&kinds);
-    let wclass = *rng.pick(&[WClass::Unweighted, WClass::Unweighted, WClass::Exact]);
+    let wclass = *rng.pick(&[WClass::Unweighted, WClass::Unweighted, WClass::Exact, WClass::Generic]);
     if idx % 3 == 2 {
-        random_case(rng, 2, 40, &kinds, &[WClass::Unweighted, WClass::Exact, WClass::ExactWide])
+        random_case(rng, 2, 40, &kinds, &[WClass::Unweighted, WClass::Exact, WClass::ExactWide, WClass::Generic, WClass::UlpsDecimal])
     } else {
         let n = *rng.pick(&[4usize, 6, 8, 9, 12, 16, 20, 24, 32, 40, 48, 64]);
         gen_case(specs, *rng.pick(fams), n, wclass, &GenOpts { self_loops: false, parallel: rng.chance(1, 4), shuffle_edges: true }, rng)
@@ -348,7 +348,14 @@ fn c17_results(case_kind: u64, rng: &mut Rng, idx: u64) -> Vec<(&'static str, St
                 _ => rng.next_u64() % 21,
             };
             let mut case = case;
-            if weighted && rng.chance(1, 8) {
+            if weighted && rng.coin() {
+                // symmetric weight patterns keep exact ties alive on weighted graphs
+                let pat: &[f64] = *rng.pick(&[&[3.0, 3.0, 1.0][..], &[5.0, 3.0, 7.0][..], &[3.0, 2.0, 1.0][..], &[2.0][..], &[1.5, 0.5][..]]);
+                for e in case.edges.iter_mut() {
+                    e.2 = pat[(e.0 + e.1) % pat.len()];
+                }
+            }
+            if weighted && rng.chance(1, 4) {
                 // exact (power-of-two scaled) weights whose squares overflow f64
                 for e in case.edges.iter_mut() {
                     e.2 *= 2f64.powi(520);
